@@ -370,6 +370,15 @@ func judgeAmountText(c TextCase, o *vh.Obs) {
 			}
 			if big.NewInt(r.a.Value()).Cmp(val) != 0 || int(r.a.Exp()) != exp {
 				o.Failf("amount-text:wrong-value", "%s(%q) = value %d exp %d, text means value %s exp %d", r.path, s, r.a.Value(), r.a.Exp(), val, exp)
+				continue
+			}
+			// whatever was read can be written again and read back (any number of decimals)
+			if exp > 18 {
+				o.Class("more-than-18-decimals")
+			}
+			back := r.a.String()
+			if want := ratref.FormatUnits(val, exp); back != want {
+				o.Failf("amount-text:rewrite", "%s(%q) was read as value %s exp %d but is written back as %q (exact text %q)", r.path, s, val, exp, back, want)
 			}
 			continue
 		}
@@ -589,7 +598,7 @@ func genPercentText(t *rapid.T) TextCase {
 var fixedTexts = []string{
 	"--5", "+5", "1.+5", "1.-5", "-+5", "9.999999999999999999", "1.0000000000000000000", "9223372036854775807", "9223372036854775808",
 	"-9223372036854775808", "-9223372036854775809", "92233720368547758.07", "92233720368547758.08", "-92233720368547758.08", "-92233720368547758.09",
-	"null", "", " ", "1 ", " 1", "1e5", "1E5", "0x10", "1_000", "1,5", "1.", ".5", "-", "-.5", "1.5.2", "٣", "１２", "1\n", "0", "-0", "-0.0", "007", "0.0000000000000000001", "0.00000000000000000000",
+	"null", "", " ", "1 ", " 1", "1e5", "1E5", "0x10", "1_000", "1,5", "1.", ".5", "-", "-.5", "1.5.2", "٣", "１２", "1\n", "0", "-0", "-0.0", "007", "0.0000000000000000001", "0.00000000000000000000", "0.0000000000000000000000000000000000000000000000000000000000000000001", "-12.000000000000000000000000000000",
 	"18446744073709551616", "1.8446744073709551616", "99999999999999999999", "NaN", "Inf", "-Inf", "true", "\"1\"", "1%", "%",
 }
 
